@@ -60,6 +60,8 @@ async def write(src: StreamWrapper, dst: StreamWrapper, bufsize: int) -> None:
             if isinstance(src, StreamWrapper)
             else src.read(bufsize)
         )
+        if len(buf) == 0:
+            raise tarfile.ReadError("unexpected end of data")
         bufsize -= len(buf)
         await dst.write(buf) if isinstance(dst, StreamWrapper) else dst.write(buf)
 
@@ -283,6 +285,9 @@ class FileStreamReaderWrapper(StreamWrapper):
         if data:
             await self.stream.seek(offset + (self.position - start))
             buf = await self.stream.read(length)
+            if len(buf) < length:
+                # The underlying wrapper only returns fewer bytes at the end of the stream
+                raise tarfile.ReadError("unexpected end of data")
             self.position += len(buf)
             return buf
         else:
